@@ -30,9 +30,43 @@ def load_mutants(prop=None):
     return out
 
 
+def apply_patch_file(patch_path, root):
+    """Apply a unified diff to copies of the touched files (outside root) -> overlay dict, or None when it does not apply."""
+    import re
+    import shutil
+    import subprocess
+    import tempfile
+    with open(patch_path, "rb") as f:
+        data = f.read()
+    files = re.findall(rb"^\+\+\+ b/(\S+)", data, re.M)
+    tmp = tempfile.mkdtemp(prefix="mut_")
+    try:
+        for rel in files:
+            rel = rel.decode()
+            src = os.path.join(root, rel)
+            if not os.path.exists(src):
+                return None
+            dst = os.path.join(tmp, rel)
+            os.makedirs(os.path.dirname(dst), exist_ok=True)
+            shutil.copy(src, dst)
+        p = subprocess.run(["patch", "-p1", "-s", "--no-backup-if-mismatch", "-d", tmp, "-i", patch_path], capture_output=True)
+        if p.returncode != 0:
+            return None
+        out = {}
+        for rel in files:
+            rel = rel.decode()
+            with open(os.path.join(tmp, rel), "rb") as f:
+                out[rel] = f.read().decode("utf-8").replace("\r\n", "\n")
+        return out
+    finally:
+        shutil.rmtree(tmp, ignore_errors=True)
+
+
 def apply_mutant(m, root):
     """-> overlay dict or None if stale."""
     overlay = {}
+    if "patch" in m:
+        return apply_patch_file(os.path.join(VERIF, m["patch"]), root)
     for e in m["edits"]:
         path = os.path.join(root, e["file"])
         if e["file"] in overlay:
